@@ -140,7 +140,7 @@ Print Assumptions fast_scan_verdicts.
 (* for every assignment of patterns to buckets and every mask length not
    exceeding the shortest pattern: a true occurrence is always a candidate ... *)
 Theorem teddy_candidates_complete : forall cfg pats data i k,
-  cfg_ok cfg pats -> (k < length pats)%nat ->
+  cfg_ok cfg pats -> (k < List.length pats)%nat ->
   occurs_at (nth k pats []) data i = true ->
   candidate cfg pats data i (bucket_of cfg k) = true.
 Proof. exact TeddyProofs.teddy_candidates_complete. Qed.
